@@ -1018,6 +1018,13 @@ def c03_spellings(tier, seed):
             except Exception:    # noqa
                 pass
             forms.append(('mol-object', Chem.MolFromSmiles(smi)))
+            # molecule objects the caller keeps using: the SAME object handed over twice (all hydrogens explicit, so nothing has to be added), and
+            # the object must come back unchanged (no atom properties, no changed bond types or aromatic flags)
+            keep = Chem.AddHs(Chem.MolFromSmiles(smi))
+            snap = (Chem.MolToSmiles(keep), [sorted(a.GetPropNames()) for a in keep.GetAtoms()], [str(b.GetBondType()) for b in keep.GetBonds()],
+                    [a.GetIsAromatic() for a in keep.GetAtoms()])
+            forms.append(('mol-object-explicit-H first use', keep))
+            forms.append(('mol-object-explicit-H second use of the same object', keep))
             distinct += 1
             fused = S.fused_six_rings(mh)
             for kind, f in forms:
@@ -1030,6 +1037,13 @@ def c03_spellings(tier, seed):
                                      'observed': got, 'expected': base,
                                      'script': "import pgradd.ThermoChem\nfrom pgradd.GroupAdd.Library import GroupLibrary\nlib = GroupLibrary.Load(%r)\nprint(dict(lib.GetDescriptors(%r)))\nprint(dict(lib.GetDescriptors(%r)))\n"
                                                % (name, smi, f if isinstance(f, str) else smi)})
+            n += 1
+            now = (Chem.MolToSmiles(keep), [sorted(a.GetPropNames()) for a in keep.GetAtoms()], [str(b.GetBondType()) for b in keep.GetBonds()],
+                   [a.GetIsAromatic() for a in keep.GetAtoms()])
+            if now != snap and len(viol) < 15:
+                viol.append({'id': '%s-%s-caller-object-modified' % (name, smi), 'input': {'library': name, 'molecule object': 'Chem.AddHs(Chem.MolFromSmiles(%r))' % smi},
+                             'observed': 'the molecule object handed to GetDescriptors was modified (atom properties / bond types / aromatic flags)', 'expected': 'the caller\'s object is left as it was',
+                             'script': "import pgradd.ThermoChem\nfrom rdkit import Chem\nfrom pgradd.GroupAdd.Library import GroupLibrary\nlib = GroupLibrary.Load(%r)\nm = Chem.AddHs(Chem.MolFromSmiles(%r))\nprint(dict(lib.GetDescriptors(m)))\nprint(dict(lib.GetDescriptors(m)))   # expected the same again\n" % (name, smi)})
             if len(samples) < 3:
                 samples.append({'library': name, 'molecule': smi, 'spellings': [f for kd, f in forms if isinstance(f, str)][:4]})
     return {'name': 'spelling-invariance', 'evaluations': n, 'distinct_nontrivial': distinct, 'violations': viol, 'samples': samples,
@@ -1360,7 +1374,8 @@ def c15_histories(tier, seed):
     from pgradd.GroupAdd.Library import GroupLibrary
     rnd = random.Random(seed)
     libs = ['BensonGA', 'XieGA2022', 'GRWSurface2018']
-    mols = {'BensonGA': ['CC', 'CCO', 'C=CC', 'CC(C)C', 'C1CCCCC1', 'CCCC'], 'XieGA2022': ['CC', 'CCC', '[Ru]C([Ru])C([Ru])([Ru])C', 'CC(C)(C)C'],
+    mols = {'BensonGA': ['CC', 'CCO', 'C=CC', 'CC(C)C', 'C1CCCCC1', 'CCCC', 'C/C=C/C', 'C/C=C\\C', 'CC=CC'],       # incl. a cis / trans / unspecified triple
+ 'XieGA2022': ['CC', 'CCC', '[Ru]C([Ru])C([Ru])([Ru])C', 'CC(C)(C)C'],
             'GRWSurface2018': ['C([Pt])C', '[Pt]C([Pt])C([Pt])([Pt])C=O', 'C([Pt])C[Pt]', 'C(=O)([Pt])O']}
     nhist = 6 if tier == 'quick' else 40
     viol, n, distinct, samples = [], 0, 0, []
@@ -1400,6 +1415,10 @@ def c15_histories(tier, seed):
                 scripts.append([{'op': 'load', 'name': A}, {'op': 'decompose', 'name': A, 'smi': m0}] + ev + [{'op': 'merge-live', 'name': A, 'other': B}] + ev)
     if tier == 'quick':
         scripts = rnd.sample(scripts, 3)
+    # stereo isomers of one constitution on one library object, in both orders (the answer for one must not depend on which came first)
+    for order in (['C/C=C/C', 'C/C=C\\C', 'CC=CC'], ['CC=CC', 'C/C=C\\C', 'C/C=C/C']):
+        scripts.append([{'op': 'load', 'name': 'BensonGA'}] + [{'op': 'decompose', 'name': 'BensonGA', 'smi': x} for x in order]
+                       + [{'op': 'estimate', 'name': 'BensonGA', 'what': 'get_HoRT', 'se': None, 'T': 400.0}] * 2)
     cur = {'script': None, 'step': 0}
 
     def pick(field, options):
@@ -1407,6 +1426,7 @@ def c15_histories(tier, seed):
         if sc is not None and field in sc[cur['step']]:
             return sc[cur['step']][field]
         return rnd.choice(options)
+    fp_clean = {nm: fp(real.load(nm, fresh=True)) for nm in libs}        # what a load gives before anything else happened in this process
     for h in range(nhist + len(scripts)):
         live = {}
         recipe = {}
@@ -1479,6 +1499,13 @@ def c15_histories(tier, seed):
                         pass
                 recipe[name] = recipe[name] + (other,)
                 trace.append(('merge-into-live', name, other))
+        distinct += 1
+        for nm in libs:
+            # a load AFTER the history gives what a load gave before it (nothing cached, shared or rewritten behind the scenes)
+            n += 1
+            if fp(real.load(nm, fresh=True)) != fp_clean[nm] and len(viol) < 14:
+                viol.append({'id': 'h%d-later-load-%s' % (h, nm), 'input': {'history': trace, 'then': 'GroupLibrary.Load(%r)' % nm}, 'observed': 'contents differ from a load made before the history',
+                             'expected': 'a load is independent of earlier merges into other library objects'})
         distinct += 1
         for name, lib in live.items():
             n += 1
